@@ -203,15 +203,22 @@ class Lowerer:
         nf = -f
         if R.known_nonneg(nf):
             return nf
-        k = f.key()
+        # one sign atom per factor up to a constant multiple: |f| = |lc| * sgn(f/lc) * (f/lc), so that f, -f and 2f share it
+        lc = f.lead()[1]
+        fn = f if lc == 1 else f.scale(1 / lc)
+        if fn.nterms() == 1:
+            sign_vars = set(getattr(R, "sign_of", {}))
+            if sign_vars and all(i in sign_vars for i, _ in R._unpack(fn.lead()[0])):
+                return R.const(abs(lc))  # |product of sign atoms| = 1
+        k = fn.key()
         sv = R.signs.get(k)
         if sv is None:
             sv = R.var(f"sgn{len(R.signs)}")
             R.signs[k] = sv
             R.add_relation(sv, 2, R.const(1))
             R.sign_of = getattr(R, "sign_of", {})
-            R.sign_of[sv] = f
-        return R.vpoly(sv) * f
+            R.sign_of[sv] = fn
+        return (R.vpoly(sv) * fn).scale(abs(lc))
 
     def abs(self, a: Frac) -> Frac:
         R = self.R
